@@ -196,8 +196,11 @@ def run_case(cs):
         cs.evaluated()
         if rb != refhash.raw(f, want[f]):
             cs.violation("decode-mismatch", {"kind": "decode-mismatch", "format": f}, {"digest": want[f]})
+    dup = list(subset) + ([rng.choice(subset)] if rng.random() < 0.3 else [])
+    if len(dup) > len(subset):
+        cs.count("multi_format_calls_with_repeated_format")
     _obs["reads"].clear()
-    multi = H.multiple_format_hash_file(p, list(subset))
+    multi = H.multiple_format_hash_file(p, list(dup))
     iters = sum(1 for a, got in _obs["reads"] if got > 0)
     cs.count("multi_loop_iters:%s" % (iters if iters < 4 else "4+"))
     for f in subset:
@@ -208,7 +211,7 @@ def run_case(cs):
     # --- CLI entry points
     cli = [f for f in subset if f in CLI_FMT]
     if cli and (n <= 70000 or rng.random() < 0.5):
-        r = drive.run("create", [root] + world.fmt_args(cli))
+        r = drive.run("create", [root] + world.fmt_args(cli + ([rng.choice(cli)] if rng.random() < 0.25 else [])))
         if r.exit != 0:
             cs.violation("create-failed", {"kind": "create-failed", "exit": r.exit, "exc": r.exc_class}, r.brief())
             return
